@@ -1,8 +1,9 @@
 package main
 
 import (
-	"math"
+	"os"
 	"fmt"
+	"math"
 	"strings"
 )
 
@@ -73,9 +74,10 @@ func indexCatalogSequences(c *Ctx) bool {
 			recordHistory(c, lines, &o, be)
 			c.Count("catalog-sequence")
 			if o.Index >= 0 {
-				reportHistoryProblem(c, dr, im, lines, &o, be, HistOpts{}, "catalog-sequence")
-				im.Destroy()
-				return false
+				if reportHistoryProblem(c, dr, im, lines, &o, be, HistOpts{}, "catalog-sequence") {
+					im.Destroy()
+					return false
+				}
 			}
 		}
 		im.Destroy()
@@ -187,9 +189,10 @@ func streamC02(c *Ctx) {
 			o := runHistory(dr, im, lines, HistOpts{})
 			recordHistory(c, lines, &o, be)
 			if o.Index >= 0 {
-				reportHistoryProblem(c, dr, im, lines, &o, be, HistOpts{}, "twins")
-				im.Destroy()
-				return
+				if reportHistoryProblem(c, dr, im, lines, &o, be, HistOpts{}, "twins") {
+					im.Destroy()
+					return
+				}
 			}
 			if !compareTwins(c, lines, &o, be) {
 				im.Destroy()
@@ -199,7 +202,6 @@ func streamC02(c *Ctx) {
 		im.Destroy()
 	}
 }
-
 
 // compareTwins: the same query on twin collections (same documents, different indexes) must give the same answer
 func compareTwins(c *Ctx, lines []J, o *HistoryOutcome, be string) bool {
@@ -332,8 +334,9 @@ func c02Cells(c *Ctx, dr *Driver, im *Impl, be string, full bool) bool {
 	recordHistory(c, lines, &o, be)
 	c.Count(fmt.Sprintf("cells:%d", qid))
 	if o.Index >= 0 {
-		reportHistoryProblem(c, dr, im, lines, &o, be, HistOpts{}, "cells")
-		return false
+		if reportHistoryProblem(c, dr, im, lines, &o, be, HistOpts{}, "cells") {
+			return false
+		}
 	}
 	return compareTwins(c, lines, &o, be)
 }
@@ -350,13 +353,17 @@ func streamC03(c *Ctx) {
 	if !c.Quick() {
 		sizes = append(sizes, 2100, 5000)
 	}
+	if os.Getenv("VERIF_C03_ONLYBIG") != "" {
+		sizes = []int{1100}
+	}
 	dm := Domain{IntsWithin2p53: true, NoNegTimes: true}
+	specOnly := false
 	for _, be := range backendsAll {
 		im := NewImpl(be, c.Scratch)
 		for _, size := range sizes {
 			rr := rounds
-			if size >= 1000 && c.Quick() && be != backendsAll[int(c.Seed)%len(backendsAll)] {
-				continue // quick tier: the large collection on one backend (chosen by the seed)
+			if size >= 1000 && c.Quick() && be != "bbolt" {
+				continue // quick tier: the large collection on bbolt only (the backend whose cursors are live views)
 			}
 			if size >= 1000 {
 				rr = 2
@@ -370,6 +377,9 @@ func streamC03(c *Ctx) {
 				h.Colls = []string{"b"}
 				lines := []J{opLine("createCollection", J{"coll": hx("b")})}
 				nIdx := g.pick(4)
+				if size >= 1000 && c.Quick() {
+					nIdx = 0 // quick tier: the large case starts without indexes (the model's list store is quadratic)
+				}
 				perm := g.R.Perm(len(indexable))
 				idxFields := []string{}
 				for i := 0; i < nIdx; i++ {
@@ -411,10 +421,24 @@ func streamC03(c *Ctx) {
 					lines = append(lines, opLine("update", J{"q": all, "upd": J{"setAll": []interface{}{[]interface{}{hx("x"), encValue(int64(100))}}}, "viaUpdate": 1}), J{"k": "dump"})
 					back := J{"coll": hx("b"), "crit": J{"cmp": []interface{}{"ge", hx("x"), J{"lit": encValue(int64(100))}}},
 						"sort": []interface{}{[]interface{}{hx("x"), -1}, []interface{}{hx("_id"), 1}}}
-					lines = append(lines, opLine("update", J{"q": back, "upd": J{"copy": []interface{}{hx("_id"), hx("x")}}}), J{"k": "dump"})
+					if !c.Quick() {
+						lines = append(lines, opLine("update", J{"q": back, "upd": J{"copy": []interface{}{hx("_id"), hx("x")}}}), J{"k": "dump"})
+					}
 					lines = append(lines, opLine("count", J{"q": J{"coll": hx("b"), "crit": J{"cmp": []interface{}{"ge", hx("x"), J{"lit": encValue(int64(100))}}}}}))
+					// a single sort key on an indexed field (the sort node is elided: the plan streams from the index)
+					// while the write moves or removes entries of that very index, with a second index next to it
+					lines = append(lines, opLine("createIndex", J{"coll": hx("b"), "field": hx("x")}), opLine("createIndex", J{"coll": hx("b"), "field": hx("xy")}))
+					if !c.Quick() {
+						lines = append(lines, opLine("update", J{"q": J{"coll": hx("b"), "sort": []interface{}{[]interface{}{hx("xy"), -1}}}, "upd": J{"copy": []interface{}{hx("_id"), hx("xy")}}}), J{"k": "dump"})
+					}
+					lines = append(lines,
+						opLine("delete", J{"q": J{"coll": hx("b"), "crit": J{"cmp": []interface{}{"ge", hx("y"), J{"lit": nil}}}, "sort": []interface{}{[]interface{}{hx("x"), 1}}}}), J{"k": "dump"},
+						opLine("count", J{"q": J{"coll": hx("b")}}))
 				}
 				nOps := 4
+				if size >= 1000 && c.Quick() {
+					nOps = 0
+				}
 				for i := 0; i < nOps; i++ {
 					var q J
 					switch g.pick(4) {
@@ -448,7 +472,27 @@ func streamC03(c *Ctx) {
 				}
 				lines = append(lines, opLine("dropCollection", J{"coll": hx("b")}), J{"k": "dump"},
 					opLine("createCollection", J{"coll": hx("b")}), opLine("findAll", J{"q": J{"coll": hx("b")}}), J{"k": "dump"})
-				o := runHistory(dr, im, lines, HistOpts{})
+				if size >= 1000 {
+					// large collections: the raw dump (and the invariant oracle) once at the end and once before the drop
+					kept, nd := []J{}, 0
+					for _, ln := range lines {
+						if ln["k"] == "dump" {
+							nd++
+						}
+					}
+					seen := 0
+					for _, ln := range lines {
+						if ln["k"] == "dump" {
+							seen++
+							if seen != nd && seen != nd-2 {
+								continue
+							}
+						}
+						kept = append(kept, ln)
+					}
+					lines = kept
+				}
+				o := runHistory(dr, im, lines, HistOpts{SpecOnly: specOnly})
 				recordHistory(c, lines, &o, be)
 				c.Count(fmt.Sprintf("size:%d", size))
 				for i, r := range o.Results {
@@ -459,9 +503,13 @@ func streamC03(c *Ctx) {
 					}
 				}
 				if o.Index >= 0 {
-					reportHistoryProblem(c, dr, im, lines, &o, be, HistOpts{}, "bulk")
-					im.Destroy()
-					return
+					if reportHistoryProblem(c, dr, im, lines, &o, be, HistOpts{SpecOnly: specOnly}, "bulk") {
+						im.Destroy()
+						return
+					}
+					// a correspondence broke without a failing input so far: the remaining cases (larger
+					// collections included) are searched with the property's own oracles only
+					specOnly = true
 				}
 			}
 		}
@@ -543,9 +591,10 @@ func streamC08(c *Ctx) {
 				}
 			}
 			if o.Index >= 0 {
-				reportHistoryProblem(c, dr, im, lines, &o, be, HistOpts{}, "sort")
-				im.Destroy()
-				return
+				if reportHistoryProblem(c, dr, im, lines, &o, be, HistOpts{}, "sort") {
+					im.Destroy()
+					return
+				}
 			}
 		}
 		im.Destroy()
@@ -598,9 +647,10 @@ func streamC09(c *Ctx) {
 			o := runHistory(dr, im, lines, HistOpts{})
 			recordHistory(c, lines, &o, be)
 			if o.Index >= 0 {
-				reportHistoryProblem(c, dr, im, lines, &o, be, HistOpts{}, "derived")
-				im.Destroy()
-				return
+				if reportHistoryProblem(c, dr, im, lines, &o, be, HistOpts{}, "derived") {
+					im.Destroy()
+					return
+				}
 			}
 			// self-relative oracle on the implementation
 			groups := map[int][]int{}
